@@ -192,6 +192,10 @@ class C10(Harness):
                             ref.append({"cutoff": S(twin.cutoff), "idx": L(q.index), "vals": L(q.values), "win": L(win)})
                         rec["ref"] = ref
                         rec["twin_after"] = snap(twin)
+                        # update_predict only absorbs the windows of its splitter (the last max(fh) points of the stretch are
+                        # test points only): the next fresh label is the first one the forecaster has not been given
+                        last_fed = max([w for r_ in ref for w in r_["win"]], default=-1)
+                        nxt = start + last_fed + 1
             except ValueError as e:
                 rec["raised"] = "ValueError"
                 steps.append(rec)
